@@ -747,6 +747,7 @@ impl VmGreenThread {
 // Instr is 8 bytes
 const _: [(); 8] = [(); size_of::<Instr>()];
 #[derive(Debug, Copy, Clone)]
+#[cfg_attr(all(kani, abra_verif), repr(u16))]
 pub enum Instr {
     // Stack manipulation
     Pop,
@@ -2737,3 +2738,6 @@ impl Display for VmErrorKind {
         }
     }
 }
+
+#[cfg(all(kani, abra_verif))]
+include!(concat!(env!("ABRA_VERIF_HARNESS_DIR"), "/vm.rs"));
